@@ -248,12 +248,14 @@ def run_C01(tier, seed):
     for w in ws:
         if w.get("error"):
             continue
-        st = w["case"]["history"][0]
+        hist_ = w["case"]["history"]
+        si = max([i for i, o in enumerate(hist_) if o[0] in ("bfs", "dfs", "block", "scc", "aseeds", "build", "min")] or [0])   # the (last) strategy call
+        st = hist_[si]
         stats["strategies"][st[0]] = stats["strategies"].get(st[0], 0) + 1
         stats["attractors_total"] += len(w["attractors"])
         if any(len(a) > 1 for a in w["attractors"]):
             stats["with_complex_attractor"] += 1
-        res0 = w["steps"][1]["real_result"] if len(w["steps"]) > 1 else "unit"
+        res0 = w["steps"][si + 1]["real_result"] if len(w["steps"]) > si + 1 else "unit"
         if res0 not in ("true", "unit"):
             continue            # the strategy did not report completion
         msgs = verdict_violations("C01", w, kinds=("seeds",))
@@ -288,7 +290,7 @@ def run_C01(tier, seed):
             msgs = [{"sig": sig, "what": f"strategy {st}: seeds of all expanded nodes vs all attractors of the network: {w['global_verdict']}{detail}"}]
         for msg in msgs:
             viol.append({"property": "C01", "signature": "C01:" + msg["sig"], "what": msg["what"], "case": w["case"], "failing_input": True})
-        tv = w["steps"][1].get("tape_verdict") if len(w["steps"]) > 1 else None
+        tv = w["steps"][si + 1].get("tape_verdict") if len(w["steps"]) > si + 1 else None
         if tv is not None:
             stats["tape_entries_checked"] = stats.get("tape_entries_checked", 0) + tv[0]
             if tv[1] and not msgs:
